@@ -1030,6 +1030,9 @@ async fn run_case(ctx: &Ctx<'_>, rng: &mut Rng, selftest: bool) {
                 "list-structure-differs".to_string()
             } else if v.kind.starts_with("read-error-encountered-internal-error") {
                 "read-error-internal".to_string()
+            } else if v.kind.starts_with("cell-differs") && v.kind.ends_with("/value") && v.kind.contains("list") {
+                // an item of a list came back with another value: classed by the kind of leaf below the list
+                "list-item-value-differs".to_string()
             } else {
                 v.kind.clone()
             };
@@ -1039,7 +1042,19 @@ async fn run_case(ctx: &Ctx<'_>, rng: &mut Rng, selftest: bool) {
                 .map(|ci| ci < cur.schema.fields().len() && cur.schema.field(ci).metadata().contains_key("lance-encoding:blob"))
                 .unwrap_or(false);
             let (no_leaf, skel) = if on_blob { (false, "blob".to_string()) } else { (no_leaf, skel.clone()) };
-            let needs_skel = !no_leaf && (kind.starts_with("list-structure") || kind.starts_with("cell-differs") || kind.starts_with("read-error"));
+            let skel = if kind == "list-item-value-differs" && !on_blob {
+                if skel.contains("list<varwidth") || skel.contains("list<..") && tclass.contains("binary") || tclass.contains("utf8") {
+                    "variable-width-items".to_string()
+                } else if skel.contains("fsl<fsl") {
+                    "nested-fixed-size-list".to_string()
+                } else {
+                    skel
+                }
+            } else {
+                skel
+            };
+            let no_leaf = no_leaf && kind != "list-item-value-differs";
+            let needs_skel = !no_leaf && (kind.starts_with("list-structure") || kind.starts_with("list-item") || kind.starts_with("cell-differs") || kind.starts_with("read-error"));
             // a panic location or the projection helper is already a narrow class of its own
             let self_contained = kind.starts_with("panic-") || kind.starts_with("from-column-names");
             let sig = if self_contained {
@@ -1471,7 +1486,7 @@ pub fn run(args: &Args) -> i32 {
         return probe_list(args, spec);
     }
     let selftest = args.extra.contains_key("selftest");
-    let report = Report::new(args, "exploration", RULE, (55, 900)).with_min_nontrivial(100);
+    let report = Report::new(args, "exploration", RULE, (40, 900)).with_min_nontrivial(100);
     report.assume("struct-level nulls are generated only for format >= 2.1 (2.0 documents that it cannot store them)");
     report.assume("batch_size is an upper bound for batch length (documented), not an exact size");
     install_hook();
